@@ -6,7 +6,7 @@
   no symlink in between) to objects.  A path handed to a system call is resolved the POSIX way:
   component by component, following symbolic links in intermediate components always and in the
   last component unless the call is of the no-follow kind (lstat, unlink, symlink, mknod, mkdir,
-  lchown, lsetxattr, and what `os.RemoveAll` does).  `LocalFS` joins the node's name to its root
+  lchown, lsetxattr, utimensat with AT_SYMLINK_NOFOLLOW, and what `os.RemoveAll` does).  `LocalFS` joins the node's name to its root
   and issues the calls listed below in the order of the Go code.
 
   Attributes: every object carries its owner (`none` = the creating process's), its permission,
@@ -33,7 +33,7 @@ structure Attr where
 inductive Obj
   | dir (attr : Attr) (mtime : Option Nat)
   | file (data : Bytes) (attr : Attr) (mtime : Option Nat)
-  | symlink (target : Bytes) (attr : Attr)
+  | symlink (target : Bytes) (attr : Attr) (mtime : Option Nat)
   | dev (major minor : Nat) (attr : Attr) (mtime : Option Nat)
   deriving DecidableEq, Repr, Inhabited
 
@@ -85,7 +85,7 @@ def walk (fs : FS) (follow : Bool) : Nat → RPath → List Name → Except Err 
     else
       let here := cur ++ [c]
       match fs.get here with
-      | some (.symlink t _) =>
+      | some (.symlink t _ _) =>
         if rest = [] && !follow then .ok here
         else walk fs follow fuel (if isAbs t then [] else cur) (comps t ++ rest)
       | some (.dir ..) => walk fs follow fuel here rest
@@ -153,7 +153,7 @@ def symlinkAt (fs : FS) (target : Bytes) (p : List Name) : Except Err FS := do
   let rp ← resolve fs false p
   if rp = [] || (fs.get rp).isSome then .error .exist
   else if !parentIsDir fs rp then .error .noent
-  else pure ((fs.set rp (.symlink target {})).touch rp.dropLast)
+  else pure ((fs.set rp (.symlink target {} none)).touch rp.dropLast)
 
 def mknod (fs : FS) (p : List Name) (major minor : Nat) : Except Err FS := do
   let rp ← resolve fs false p
@@ -164,21 +164,21 @@ def mknod (fs : FS) (p : List Name) (major minor : Nat) : Except Err FS := do
 def Obj.attr : Obj → Attr
   | .dir a _ => a
   | .file _ a _ => a
-  | .symlink _ a => a
+  | .symlink _ a _ => a
   | .dev _ _ a _ => a
 
 def Obj.withAttr (o : Obj) (a : Attr) : Obj :=
   match o with
   | .dir _ m => .dir a m
   | .file d _ m => .file d a m
-  | .symlink t _ => .symlink t a
+  | .symlink t _ m => .symlink t a m
   | .dev ma mi _ m => .dev ma mi a m
 
 def Obj.withMtime (o : Obj) (t : Option Nat) : Obj :=
   match o with
   | .dir a _ => .dir a t
   | .file d a _ => .file d a t
-  | .symlink tg a => .symlink tg a
+  | .symlink tg a _ => .symlink tg a t
   | .dev ma mi a _ => .dev ma mi a t
 
 /-- what `chown` does to the mode bits of a non-directory: S_ISUID (04000) goes, S_ISGID (02000)
@@ -225,6 +225,13 @@ def lsetxattr (fs : FS) (p : List Name) (k v : Bytes) : Except Err FS := do
 /-- `os.Chtimes` (follows links) -/
 def chtimes (fs : FS) (p : List Name) (t : Nat) : Except Err FS := do
   let rp ← resolve fs true p
+  match fs.get rp with
+  | none => if rp = [] then pure fs else .error .noent
+  | some o => pure (fs.set rp (o.withMtime (some t)))
+
+/-- `utimensat(…, AT_SYMLINK_NOFOLLOW)`: the time stamp of the object the path names, links not followed -/
+def lchtimes (fs : FS) (p : List Name) (t : Nat) : Except Err FS := do
+  let rp ← resolve fs false p
   match fs.get rp with
   | none => if rp = [] then pure fs else .error .noent
   | some o => pure (fs.set rp (o.withMtime (some t)))
@@ -308,7 +315,10 @@ def createSymlink (o : Opts) (root : List Name) (s : LState) (name : Bytes) (m :
   let fs ← if o.noSameOwner then pure fs else do
     let fs ← sys fs (chown fs false dst m.uid.toNat m.gid.toNat)
     setXattrs fs dst m.xattrs
-  pure { s with fs := fs }
+  if m.mtime = 0 then pure { s with fs := fs }
+  else do
+    let fs ← sys fs (lchtimes fs dst m.mtime.toNat)
+    pure { s with fs := fs }
 
 def createDevice (o : Opts) (root : List Name) (s : LState) (name : Bytes) (m : Meta) (major minor : Nat) : Except FS LState := do
   let dst := dstOf root name
